@@ -77,6 +77,10 @@ CHECKS = {
          "Every string leaf of a 2-step/2-inspection layout (found by reflection, so new fields are covered automatically) x 30 marker texts x 20 dictionaries (incl. values containing markers and seven invalid names) is run through SubstituteParameters under every iteration order of the dictionary and compared leaf by leaf with a one-pass reference applied to the four target fields only.",
          "Trusted: reference substitution; overlay rewriter. Outside: texts/dictionaries beyond the catalogues.",
          "DESIGN.md §3 C18"),
+ "C19": ("bounded-exhaustive enumeration of key x encoding x framing x API x parameters, two-load histories, sign/verify cross product and all single-byte DER mutations of the smallest encodings, against crypto/x509 and a reference key-id computation",
+         "Eight pool keys (Ed25519, RSA-2048/3072, P-224/256/384/521) in every PEM form each supports, six framings, four loader APIs and seven (scheme, hash-algorithm) parameter sets: type, default scheme, public half, presence of private half / certificate and the key id (ref.KeyID = SHA-256 of the reference canonical description) must match what crypto/x509 says the material is; every ordered pair of loads into one Key object must equal a fresh load; one id per pair across forms, different ids across keys; what was loaded from private material signs and its public / certificate form verifies (also with independent crypto), other pairs do not; every single-byte substitution and truncation of three small DER encodings either loads exactly the key crypto/x509 sees or is refused, never a panic.",
+         "Trusted: crypto/x509, ref.KeyID/ref.Canon. Outside: key values beyond the pool, SPIFFE SVID conversion.",
+         "DESIGN.md §3 C19"),
 }
 
 NOT_YET = "check not built yet in this session (planned, see DESIGN.md §3); will be claimed once its driver exists"
